@@ -31,10 +31,10 @@ def number(value):
         r"^\-?\d+\.\d+$",
         r"^\-?\d+\.$",
         r"^\-?\.\d+$",  # float
-        r"^\-?\d+:\d{2}$",  # :mm
-        r"^\-?\d+:\d{2}\.\d+$",  # :mm.m
-        r"^\-?\d+:\d{2}:\d{2}$",  # :mm:ss
-        r"^\-?\d+:\d{2}:\d{2}\.\d+$",  # :mm:ss.s
+        r"^\-?\d+[:; ]\d{2}$",  # :mm
+        r"^\-?\d+[:; ]\d{2}\.\d+$",  # :mm.m
+        r"^\-?\d+[:; ]\d{2}[:; ]\d{2}$",  # :mm:ss
+        r"^\-?\d+[:; ]\d{2}[:; ]\d{2}\.\d+$",  # :mm:ss.s
     )
     if value is None:
         return None
